@@ -29,6 +29,7 @@ NOTES = {
     'C01:panic layers.TCPOption.String': 'TCPOption.String dereferences the nil MPTCP sub-option left by a failed MP_CAPABLE parse (DESIGN 9; core-layer defect, repaired by the TCP sub-check)',
     'C19:panic layers.(*TCP).DecodeFromBytes': 'MPTCP option parsing reads data[4:12] etc. without length checks (DESIGN 9; core-layer defect, repaired by the TCP sub-check)',
     'C19:panic layers.(*SIP).ParseHeader': 'the zero value layers.SIP has a nil Headers map: DecodeFromBytes on &layers.SIP{} (or in a DecodingLayerParser) panics with "assignment to entry in nil map" on any input with a header line; only layers.NewSIP() is usable',
+    'C06:roundtrip layers.TCP': 'TCP with an MPTCP MP_CAPABLE option: the serialized option is rejected by the decoder ("MP_CAPABLE bad option length"); core-layer defect, TCP sub-check',
     'C07:panic layers.(*STP).SerializeTo': 'STP.SerializeTo calls panic("Invalid Priority value ...") for bridge priorities that its own decoder accepts (not multiples of 4096) instead of returning an error',
     'C07:panic layers.(*BFD).SerializeTo': 'BFD.SerializeTo appends AuthHeader.Length() bytes (0 for a decoded header whose type it does not know) and then writes auth[0..2]: index out of range on a layer its own decoder produced',
     'C07:panic layers.(*SNAP).SerializeTo': 'SNAP.SerializeTo indexes OrganizationalCode[0..2] of a value whose OrganizationalCode is nil/short (zero value or failed decode)',
@@ -36,6 +37,10 @@ NOTES = {
     'C07:panic layers.Dot11.SerializeTo': 'Dot11.SerializeTo slices a 24-byte header buffer to [:30] for a decoded frame with 4 addresses',
     'C07:junk-dependence layers.IPv4': 'IPv4 option padding bytes are never written (DESIGN 9; core-layer defect, repaired by the IPv4 sub-check)',
     'C07:junk-dependence layers.GRE': 'GRE with routing/ack leaves 4 bytes unwritten (DESIGN 9)',
+    'C06:roundtrip layers.ICMPv6Redirect': 'ICMPv6Options are written in reverse order (DESIGN 9)',
+    'C06:fixpoint layers.ICMPv6Redirect': 'ICMPv6Options are written in reverse order (DESIGN 9)',
+    'C19:panic layers.decodeCounterSample': 'sFlow counter sample: record lengths taken from the input are used to slice without a length check (slice bounds out of range [4:0])',
+    'C19:panic layers.getLSAs': 'OSPFv3 LS update: getLSAs slices data[:4] of an exhausted buffer when the LSA count exceeds what is present',
     'C06:roundtrip layers.GRE': 'GRE with routing and ack serializes to bytes its own decoder rejects (DESIGN 9)',
     'C06:roundtrip layers.ICMPv6NeighborAdvertisement': 'ICMPv6Options are written in reverse order: two or more NDP options come back swapped (DESIGN 9; repaired by the IPv6/ICMPv6 sub-check)',
     'C06:roundtrip layers.ICMPv6NeighborSolicitation': 'ICMPv6Options are written in reverse order (DESIGN 9)',
@@ -55,12 +60,12 @@ NOTES = {
     'C06:fixpoint layers.RadioTap': 'RadioTap.SerializeTo does not mirror DecodeFromBytes',
     'C06:roundtrip layers.LLC': 'LLC.SerializeTo writes a 3-byte header for control values its decoder reads as 4 bytes (and vice versa)',
     'C06:fixpoint layers.LLC': 'LLC control field width differs between SerializeTo and DecodeFromBytes',
-    'C06:roundtrip layers.EAP': 'EAP.SerializeTo/DecodeFromBytes disagree on Length and TypeData for short packets',
-    'C06:fixpoint layers.EAP': 'EAP.SerializeTo/DecodeFromBytes disagree on Length and TypeData',
+    'C06:roundtrip layers.EAP': 'EAP.SerializeTo with FixLengths writes a Length that does not count what its decoder counts (Length 4 is written as 1, which the decoder rejects; 8 becomes 5, 6, 11 ... on successive round trips) and the TypeData/payload split changes every time',
+    'C06:fixpoint layers.EAP': 'EAP.SerializeTo with FixLengths does not reproduce the Length its decoder read: the packet changes on every round trip',
     'C06:roundtrip layers.MDP': 'MDP.SerializeTo writes nothing and returns nil: the output of a decoded MDP layer is empty and cannot be decoded',
-    'C06:roundtrip layers.RADIUS': 'RADIUS.SerializeTo with FixLengths writes a length its own decoder rejects for decoded attribute lists',
+    'C06:roundtrip layers.RADIUS': 'RADIUS.SerializeTo writes every attribute Length 2 too small (7 -> 5, 6 -> 4): its own decoder rejects or mis-frames the result',
     'C06:roundtrip layers.TLS': 'TLS.SerializeTo writes record lengths that its decoder rejects ("TLS packet length mismatch")',
-    'C06:fixpoint layers.Geneve': 'Geneve.SerializeTo does not reproduce the first byte (version / option length) of a decoded header',
+    'C06:fixpoint layers.Geneve': 'Geneve.DecodeFromBytes takes Version from bit 7 only (data[0]>>7) while SerializeTo writes Version<<6: 0x80 -> Version 1 -> 0x40 -> Version 0 -> 0x00',
     'C06:roundtrip layers.Dot11InformationElement': 'Dot11InformationElement: extension elements (ID 255) lose a byte per round trip / are rejected on re-decode',
     'C06:fixpoint layers.Dot11InformationElement': 'Dot11InformationElement extension elements are not mirrored',
 }
@@ -76,6 +81,7 @@ def main():
     have_ops = {l.split('\t')[2] for l in existing if l.count('\t') >= 2}
     new_cases = []
     n_new = 0
+    new_ids = set()
     for line in open(os.path.join(d, 'sweep_sites.tsv')):
         f = line.rstrip('\n').split('\t')
         if len(f) < 6:
@@ -85,7 +91,9 @@ def main():
             continue
         site = sk.split(';')[0][len('site='):]
         kid = 'Sweep-%s-%s' % (clause.replace(':', '-'), re.sub(r'[^A-Za-z0-9_.]+', '_', site).strip('_'))
-        if ops not in have_ops:
+        if kid not in have:
+            new_ids.add(kid)
+        if ops not in have_ops and kid in new_ids:
             have_ops.add(ops)
             wid = 'known-%s-%d' % (re.sub(r'[^A-Za-z0-9]+', '', site)[:40], len(existing) + len(new_cases))
             new_cases.append('%s\tSweep\t%s' % (wid, ops))
